@@ -73,6 +73,7 @@ def load_units():
                 g.setdefault('timeout', 300)
                 g.setdefault('bounded', None)
                 g.setdefault('native', True)
+                g.setdefault('entry', None)
             units.append(u)
     return units
 
@@ -104,6 +105,8 @@ def run_group(repo, unit, g, variant_defs=(), tag=''):
     src = os.path.join(unit['dir'], g['source'])
     defs = ['-D' + d for d in list(g['defines']) + list(variant_defs)]
     t_all = time.time()
+    if g.get('kind') == 'smt':
+        return run_smt_lemma(unit, g, res, wd)
     # 1. compile the real code + contracts
     cmd = ['goto-cc'] + include_flags(repo, unit) + defs + ['--function', g['entry'], src, '-o', 'a.gb']
     rc, so, se, dt = sh(cmd, 300, cwd=wd)
@@ -371,6 +374,30 @@ def run_group(repo, unit, g, variant_defs=(), tag=''):
     res['status'] = 'failed' if any(o['status'] == 'FAILURE' for o in res['failed']) else ('ok' if not res['failed'] else 'error')
     if res['status'] == 'error':
         res['detail'] = 'obligations neither proved nor refuted: ' + ', '.join(o['id'] for o in res['failed'][:5])
+    return res
+
+
+def run_smt_lemma(unit, g, res, wd):
+    """a lemma over mathematical integers that links two machine-checked contract clauses (e.g. the monotonicity
+    step from 'window inside window, in samples' to 'inside the allocation, in octets'); it does not depend on the
+    code. Both installed SMT solvers must answer unsat; anything else is a defect of the lemma: undecided (exit 2)."""
+    f = os.path.join(unit['dir'], g['file'])
+    answers = {}
+    for name, cmd in (('z3', ['z3', f]), ('cvc5', ['cvc5', '--nl-ext-tplanes', f])):
+        rc, so, se, dt = sh(cmd, g['timeout'], cwd=wd)
+        ans = [l.strip() for l in so.splitlines() if l.strip() in ('sat', 'unsat', 'unknown')]
+        answers[name] = ans[-1] if ans else 'error: ' + (so + se)[-200:]
+        res['seconds'][name] = round(dt, 2)
+    res['cmd_cbmc'] = 'z3 %s ; cvc5 --nl-ext-tplanes %s' % (f, f)
+    ok = all(a == 'unsat' for a in answers.values())
+    res['obligations'].append({'id': 'lemma.' + g['name'], 'description': 'lemma (mathematical integers, z3 and cvc5): ' + g.get('text', g['name']),
+                               'status': 'SUCCESS' if ok else 'UNKNOWN', 'file': f, 'line': '', 'function': ''})
+    res['canary'] = True
+    if ok:
+        res['status'] = 'ok'
+    else:
+        res['status'] = 'error'
+        res['detail'] = 'lemma not proved: %r' % answers
     return res
 
 
